@@ -7,6 +7,9 @@ CONSTANTS
   MaxT = 2
   Phases <- compare_q_Phases
   ShapeSet <- compare_q_Shapes
+  Signers = {"s1", "s2"}
+  Recipients = {"r1", "r2"}
+  Policies <- compare_q_Policies
   CfgName = "compare_q"
 INIT Init
 NEXT Next
